@@ -161,6 +161,11 @@ Theorem C11_copy_entries_is_the_sources : forall src tasks latest,
 Proof. exact copy_batches_tie. Qed.
 Print Assumptions C11_copy_entries_is_the_sources.
 
+(* the tar member list of `cond archive` and the copy loop of `cond restore` iterate get_all_versions(): one entry per row *)
+Theorem C11_member_list_is_every_row : gen_index_readers_return_one_entry_per_row = true.
+Proof. reflexivity. Qed.
+Print Assumptions C11_member_list_is_every_row.
+
 (* non-vacuity: `-o backup.tar.gz` with backup.tar.gz present is refused with one step; `-o new.tar.gz` (absent, parent a
    directory) whose tar fails enters 1..9, removes the partial file, re-raises and removes the index; success ends with
    the removal of the index *)
